@@ -9,7 +9,8 @@ from .lib.mir import AnchorLost
 
 CONFIGS_QUICK = ["A"]
 CONFIGS_THOROUGH = ["A", "R", "NOAPI"]
-TECHNIQUE = "sibling-family rules over the impl table (absolute rule per member + agreement with the member's arity) and dominance rules on FangActionProc::bite's coroutine"
+TECHNIQUE = ("sibling-family rules over the impl table (absolute rule per member + agreement with the member's arity) and dominance rules on FangActionProc::bite's "
+             "coroutine; must-alias value flow with variant tracking over the combinator-expanded MIR of the router's search")
 LEVEL_TEXT = ('Decides clauses C04-a..d and C04-f..i: each of the Fangs impls (blanket, unit, tuples 1-8) builds chain(f1, chain(f2, .. chain(fn, inner))) and hands '
               'exactly that to BoxedFPC::from_proc (same nesting for openapi_map_operation); FangActionProc::bite calls the inner proc only on the Ok edge of fore, '
               "back only after the inner proc, and returns the Err response without either; the four local-fang IntoHandler impls wrap the handler's own proc with "
@@ -19,9 +20,10 @@ LEVEL_TEXT = ('Decides clauses C04-a..d and C04-f..i: each of the Fangs impls (b
               "the per-method tree merge passes through the step that hands the mounted application's fangs to the mount point (no early success return before it); a"
               " node's fang list grows only in FangsList::add, under a search of the whole list for the application id (no duplicate entry, so no fang runs twice); "
               "the final tree's single-child compression absorbs a child only under tests that node, child and the node above carry the same fangs (two known "
-              "findings on the pinned tree: it does not, see known_findings.json); in Node::search_target every answer made on the edge where a node's pattern "
-              "matched names that node, so a miss under a mount is handled by the catch that carries the mounted application's fangs. Decides these clauses, not the "
-              'order/scope across mounted applications after tree compression.')
+              'findings on the pinned tree: it does not, see known_findings.json); in Node::search_target (local helpers, std combinators and the closures handed to '
+              'them expanded) every answer reached from a successful pattern match, before another pattern matches, names the matched node (must-alias flow of that '
+              "node's reference through copies, re-borrows, tuples and Options), so a miss under a mount is handled by the catch that carries the mounted "
+              "application's fangs. Decides these clauses, not the order/scope across mounted applications after tree compression.")
 
 FANG_CHAIN = r"^ohkami::fang::Fang::chain$"
 
@@ -342,17 +344,19 @@ def c04f(ck, prog):
             ck.ob(R, "merge_node:Ok#%d" % n, ok, mn.loc(None),
                   "" if ok else "merge_node can report success on a path that attached nothing of the mounted application (no merge_here / recursive merge_node before this `Ok`): its fangs would not run for requests of this method under the mount prefix", how="Ok(()) only after merge_here / merge_node")
     ck.floor(R, "merge_node return sites", n, 3)
-    af = mh.calls_to(r"base::Node::append_fangs$")
+    # the append may be written in place or sit in a one-line helper of Node
+    mh = prog.inlined(mh, 1, r"base::FangsList::append$")
+    af = [c for c in mh.calls_to(r"base::FangsList::append$") if re.search(r"^arg1\.fangses$", decision.describe_deep(mh, c.args[0], 4))]
     ok = len(af) == 1
     if ok:
-        src = decision.describe_deep(mh, af[0].args[1], 3)
+        src = decision.describe_deep(mh, af[0].args[1], 4)
         ok = re.search(r"arg2\.fangses$", src) is not None
         # nothing that can return comes before it
         early = [bb for bb, kind, payload in paths.ret_sites(mh) if not mh.dominates(af[0].bb, bb)]
         ok = ok and not early and not [fa for fa in guards.facts_at(mh, prog, af[0].bb) if fa.kind in ("cmp", "boolcall", "boolplace")]
         ck.ob(R, "merge_here:appends-fangs-first", ok, mh.loc(af[0].sp), "" if ok else "merge_here does not unconditionally append the mounted root's fang lists (%s) before it can return" % src, how="self.append_fangs(another_root.fangses) dominates every return, unconditionally")
     else:
-        ck.ob(R, "merge_here:appends-fangs-first", False, mh.loc(None), "merge_here calls append_fangs %d times" % len(af))
+        ck.ob(R, "merge_here:appends-fangs-first", False, mh.loc(None), "merge_here appends to its own fang lists %d times" % len(af))
     # apply_fangs reaches every node: children first, then the node itself, unconditionally
     ap = prog.method(NODE, "apply_fangs")
     add = ap.calls_to(r"FangsList::add$")
@@ -481,11 +485,11 @@ def c04h(ck, prog):
     its mount prefix, outer before inner` only if the node, its child and the node above carry the same fangs. The absorb
     step must be taken under both tests, made in the same loop iteration."""
     R = "C04-h GUARD compression keeps fang scope"
-    from .C01 import final_builder
+    from .C01 import final_builder_view, on_arg1
     from .lib.bound import natural_loops
-    f = final_builder(prog)
+    f = final_builder_view(prog)
     loops = natural_loops(f)
-    stores = [(bi, st) for bi, st, agg in decision.field_stores(f, "handler") if st["p"][0] == 1 and any(bi in b for b in loops.values())]
+    stores = [(bi, st) for bi, st, agg in decision.field_stores(f, "handler") if on_arg1(f, st["p"]) and any(bi in b for b in loops.values())]
     if not stores:
         # no compression at all (edge runtimes): nothing to guard
         ck.ob(R, "compression:none", True, f.loc(None), how="the final node builder does not absorb children in this configuration", nontrivial=False)
@@ -513,40 +517,103 @@ def c04h(ck, prog):
 def c04i(ck, prog):
     """`fangs of an application run for every request whose path lies under its mount prefix (also when it ends in 404
     there)`: a miss is answered by the `catch` of the deepest node whose pattern matched, because that node carries the fangs
-    of every application the path is under. In Node::search_target every answer made under the edge on which a node's
-    pattern matched names that node (hit or miss); the parent is named only after all children failed to match."""
+    of every application the path is under. In Node::search_target (helpers, std combinators and the closures handed to
+    them expanded) follow the node of every successful `take_through` forward: until another pattern matches, every
+    answer `(node, hit)` must name that node -- directly or through a variable it was assigned to on that path."""
     R = "C04-i DECISION miss answered by deepest match"
-    f = prog.one(r"^ohkami::router::r#final::Node::search_target$")
-    n = 0
-    for bb, kind, pl in paths.ret_sites(f):
-        if not (isinstance(pl, list) and pl and pl[0] == "agg" and len(pl[2]) == 2):
+    f0 = prog.one(r"^ohkami::router::r#final::Node::search_target$")
+    f = prog.flattened(f0, r"take_through$", combinators=True)
+    attempts = [c for c in f.calls() if c.name == "take_through"]
+    # switch edges on the result of an attempt
+    some_edges = {}    # (switch bb, target bb) -> attempt call
+    for sb in sorted(f.live_blocks()):
+        info = f.switch_info(sb) if f.blocks[sb]["t"]["k"] == "switch" else None
+        if not info or info.get("kind") != "variant" or not info.get("steps"):
             continue
+        if info["place"][1]:
+            continue
+        ost = f.origin(["c", info["place"]])
+        if not ost or ost[-1][0] != "call" or ost[-1][1].name != "take_through" or not all(x[0] == "via" for x in ost[:-1]):
+            continue
+        calls = [ost[-1][1]]
+        names = prog.variant_names(info["ty"]) or {0: "None", 1: "Some"}
+        for tb, lab in f.succ(sb):
+            nm = names.get(lab) if lab != "otherwise" else None
+            if nm is None and lab == "otherwise":
+                listed = {names.get(l) for _, l in f.succ(sb) if l != "otherwise"}
+                rest = [v for v in names.values() if v not in listed]
+                nm = rest[0] if len(rest) == 1 else None
+            if nm == "Some":
+                some_edges[(sb, tb)] = calls[-1]
+    answers = {}     # (bb, si) -> statement, for `_0 = (node, hit)`
+    for bi in sorted(f.live_blocks()):
+        if f.is_cleanup(bi):
+            continue
+        for si, st in enumerate(f.blocks[bi]["st"]):
+            if st["k"] == "=" and st["p"] == [0, []] and st["r"][0] == "agg" and st["r"][1].get("k") == "tuple" and len(st["r"][2]) == 2:
+                answers[(bi, si)] = st
+    ck.floor(R, "pattern matches followed in search_target", len(some_edges), 2)
+    ck.floor(R, "answers of search_target", len(answers), 3)
+    n = 0
+    for (sb, tb), call in sorted(some_edges.items()):
+        X = matched_node(f, call)
+        if X is None:
+            ck.ob(R, "match@%s:node" % decision.describe_deep(f, call.args[0], 4)[:40], False, f.loc(call.sp), "cannot tell which node's pattern `take_through` is called on")
+            continue
+        bad = []
+        checked = []
+
+        def on_stmt(bb, si, st, S, bad=bad, checked=checked):
+            if (bb, si) in answers:
+                op = st["r"][2][0]
+                ok = op[0] in ("c", "m") and paths.norm_place(op[1]) in S
+                checked.append((bb, si))
+                if not ok:
+                    bad.append((bb, si, decision.describe_deep(f, op, 3)))
+        vn = lambda ty: prog.variant_names(ty) or ({0: "None", 1: "Some"} if ty.startswith("core::option::Option<") else None)
+        # phase 1: from the return of the call to the test of its result (arguments of a combinator applied to the
+        # result -- a closure capturing the node -- are built here, before the test)
+        pre = paths.alias_explore(f, call.target, {X}, lambda *a: None, blocked_edge=lambda bb, t2, lab: bb == sb, variant_names=vn) if call.target is not None else set()
+        starts = {(S, V) for (bb, S, V) in pre if bb == sb} or {(frozenset({X}), frozenset())}
+        # phase 2: from the `Some` edge on, until another pattern matches
+        for S, V in starts:
+            paths.alias_explore(f, tb, S, on_stmt, blocked_edge=lambda bb, t2, lab: (bb, t2) in some_edges, variant_names=vn, V0=V)
         n += 1
-        node = decision.describe_deep(f, pl[2][0], 4)
-        hit = decision.describe_deep(f, pl[2][1], 1)
-        matched = None   # innermost node whose take_through answered Some on a dominating edge
-        exhausted = False
-        for fa in guards.facts_at(f, prog, bb):
-            if fa.kind != "variant" or not fa.steps or fa.steps[-1][0] != "call":
+        who = re.sub(r"\.pattern(\.0)?$", "", decision.describe_deep(f, call.args[0], 4))
+        ok = not bad
+        ck.ob(R, "after-match[%s]" % ("root" if who == "arg1" else "child"), ok, f.loc(f.blocks[bad[0][0]]["st"][bad[0][1]].get("sp")) if bad else f.loc(call.sp),
+              "" if ok else "search_target answers with `%s` on a path where the pattern of `%s` has just matched a prefix of the path: the miss is handled by another node's catch, so the fangs of an application "
+              "mounted at the matched node are skipped for 404s under its prefix (GET /api/unknown with a leaf mount node)" % (bad[0][2], who),
+              how="every answer reached from the match of `%s` before another match names that node (%d answer site(s) reached)" % (who, len(set(checked))))
+
+
+def matched_node(f, call):
+    """access path of the reference to the node whose `.pattern` is the receiver of a take_through call"""
+    op = call.args[0]
+    for _ in range(8):
+        if op[0] not in ("c", "m"):
+            return None
+        place = op[1]
+        if place[1]:
+            return None
+        sd = f.single_def(place[0])
+        if sd is None or sd[2] != "assign":
+            return None
+        r = sd[3]["r"]
+        if r[0] == "use":
+            op = r[1]
+            continue
+        if r[0] == "ref":
+            P = r[2]
+            idx = [j for j, pr in enumerate(P[1]) if pr[0] == "f" and pr[2] == "pattern"]
+            if idx:
+                pre = P[1][:idx[-1]]
+                if pre and pre[-1][0] == "d":
+                    pre = pre[:-1]
+                return paths.norm_place([P[0], pre])
+            if P[1] == [["d"]]:
+                op = ["c", [P[0], []]]
                 continue
-            c = fa.steps[-1][1]
-            if c.name == "take_through" and fa.allowed == {"Some"}:
-                who = decision.describe_deep(f, c.args[0], 4)
-                who = re.sub(r"\.pattern$", "", who)
-                if matched is None or "next(" in who:
-                    matched = who
-            if c.name == "next" and fa.allowed == {"None"}:
-                exhausted = True
-        if matched is None:
-            ok = True
-            how = "answers `%s` where no pattern matched" % node
-        elif exhausted:
-            ok = True   # all children of the current target failed: the target (the last node descended into) answers
-            how = "after all children failed the current node answers"
-        else:
-            ok = node == matched
-            how = "under the edge on which `%s` matched, `%s` answers" % (matched, node)
-        ck.ob(R, "answer#%d:%s" % (n, "hit" if hit.endswith("1") else "miss"), ok, f.loc(f.blocks[bb]["t"].get("sp")),
-              "" if ok else "search_target answers with `%s` on the edge where the pattern of `%s` matched a prefix of the path: the miss is handled by the parent's catch, so the fangs of an application mounted at the matched node "
-              "are skipped for 404s under its prefix (GET /api/unknown with a leaf mount node)" % (node, matched), how=how)
-    ck.floor(R, "answers of search_target", n, 4)
+        return None
+    return None
+
